@@ -28,9 +28,9 @@ import vlib
 from vlib import Line, dec, enc
 
 PID = 'C14'
-# The input domain includes the degenerate classes inside the property's quantifier on which the unchanged tree fails
+# The input domain includes the degenerate classes inside the property's quantifier on which the pinned tree failed
 # (knot spacing dividing the data span exactly, exactly tangent Dubins circles, curves at rest / infeasible forward pass);
-# findings on them carry narrow identifying keys.
+# findings on them carry narrow identifying keys.  The implementation is whatever vlib.REPO points to.
 FULL_DOMAIN = True
 REP_PREDICTED = {}    # rep request -> the Lean model predicts a segment of non-positive duration
 U = 2.0 ** -52
@@ -981,13 +981,6 @@ def judge_rep(lines, st):
             broken.append({'what': 'correspondence', 'name': 'T1 rep_run: curve evaluations differ from the model (1 + N backward + N forward at s0+ds*i)',
                            'first': {'line': l.request(), 'calls': ncalls, 'N': N}})
     broken += rep_t1(cases, st)
-    for c in cases:
-        if c.get('uninit'):
-            i = next(k for k, (y, stt) in enumerate(c['lp']) if stt == 1)
-            findings.append({'property': PID, 'key': {'kind': 'reparameterize_uninitialised_v2max'}, 'err': None, 'tol': 0.0,
-                             'what': f'reparameterize_spline: lp2d::solve returns PrimaryInfeasible at grid point {i} (rows {c["rows"][i]}); '
-                                     'v2max(i) is then never written and the forward pass reads uninitialised memory',
-                             'line': c['line'].request()})
     return findings, broken
 
 
@@ -1052,7 +1045,8 @@ def rep_backward(cases):
                 raise vlib.MachineryError('lp2d request not served')
             y, a, stt = r.out_vals()
             c['lp'][i] = (y, int(stt))
-            c['v2'][i] = y if stt == 0 else (float('inf') if stt == 2 else float('nan'))
+            # v2max(i) = max(0, y) when Optimal, inf when DualInfeasible, 0 otherwise (std::max(0., y) = (0 < y) ? y : 0)
+            c['v2'][i] = ((y if 0.0 < y else 0.0) if stt == 0 else (float('inf') if stt == 2 else 0.0))
 
 
 def rep_model(cases):
@@ -1150,12 +1144,6 @@ def rep_t1(cases, st):
     for c in cases:
         l = c['line']
         N = c['N']
-        if any(stt == 1 for (y, stt) in c['lp']):
-            # lp2d::solve reported PrimaryInfeasible: the code leaves v2max(i) unwritten (no else branch) and later
-            # reads the uninitialised entry — the implementation's result is not a function of its inputs here
-            st['rep']['uninitialised_v2max_cases'] = st['rep'].get('uninitialised_v2max_cases', 0) + 1
-            c['uninit'] = True
-            continue
         st['t1']['rep_run']['n'] += 1
         m = c['model']
         if 'err' in m:
@@ -1200,7 +1188,7 @@ class C14:
             '2..40 points; dubins poses on a 7x7x8 grid x 3 radii plus random poses/radii; fit_bspline K in {1,3,4}; '
             'reparameterize_spline on SE2 splines of 1..4 constant-velocity/fixed-cubic segments x random bound vectors x start/end speeds. '
             'distinct_nontrivial counts distinct request lines')
-    assumptions = ['Eigen SparseLU / SimplicialLDLT and lp2d::solve are parameters of the model; their results are audited '
+    assumptions = ['Eigen SparseLU (constraint system and KKT system) and lp2d::solve are parameters of the model; their results are audited '
                    '(exact constraint residuals, exact rational LP), not proved',
                    'IEEE rounding is measured (exact rational re-evaluation of every constraint), not proved',
                    'boundary derivative values of a spline specification are derivatives with respect to the normalised segment '
@@ -1211,6 +1199,10 @@ class C14:
                    'the value at T itself is the last segment\'s own end, which the max(eps, .) guard may leave short (statistic worst_end_gap)',
                    'the velocity/acceleration bounds themselves are not part of C14; lp2d::solve is audited against an exact rational LP '
                    'and its failures are reported as statistics (coverage.reparameterize.lp2d_audit)']
+
+    def prebuild(self):
+        """compile the three harness parts against vlib.REPO (content-hash cache) — called by tools/prebuild.py at setup"""
+        return vlib.build_harnesses(harness_specs())
 
     def budgets(self, ctx):
         q = ctx['tier'] == 'quick'
